@@ -154,4 +154,17 @@ def C11(s, known):
                             "byte-identical and equal to the meaning Conv.tla computes (an accepted accidental is honoured)")
 
 
-PLANS = {"C11": C11, "C05": C05, "C04": C04, "C16": C16, "C01": C01, "C02": C02, "C06": C06, "C07": C07, "C08": C08, "C17": C17, "C15": C15, "C14": C14, "C13": C13, "C03": C03}
+def C09(s, known):
+    s.build()
+    s.model("LexerMC", workers=8, constants={"K": 3 if s.tier == "quick" else 4})
+    s.model("RunsMC", workers=2)
+    m = s.drive("c09")
+    s.validate(m, "C09Trace", known=known, shard=max(200, len_records(m) // 12 + 1))
+    return dict(level="model_checking",
+                explanation="Runs.tla: outcome protocol and the nonsense x channel x stage matrix (RunsMC enumerates it; the driver's cells must cover every "
+                            "live cell); LexerMC: every scan loop ends at end of input. Every run of the real binary - matrix cells and seeded byte-level "
+                            "exploration (truncation at every offset, mutations, random bytes, flags, dictionary files) - is judged by TLC",
+                assumptions=["the arbitrary-bytes part is seeded exploration judged by the specification, not exhaustive"])
+
+
+PLANS = {"C09": C09, "C11": C11, "C05": C05, "C04": C04, "C16": C16, "C01": C01, "C02": C02, "C06": C06, "C07": C07, "C08": C08, "C17": C17, "C15": C15, "C14": C14, "C13": C13, "C03": C03}
